@@ -219,7 +219,7 @@ Proof.
     assert (Hinit : GoodIn en (concat (index_map (fun i eo => tag_local_init en ns i (fst eo) (snd eo)) O
                                                  (map (fun e => (e, b_exp flv slv reg e en)) es)))).
     { apply GoodIn_concat_index. intros i eo Heo. apply in_map_iff in Heo. destruct Heo as [e [<- He]]. cbn [fst snd].
-      unfold tag_local_init. apply GoodIn_tag_if. rewrite Forall_forall in IHe. apply IHe. exact He. }
+      unfold tag_local_init. rewrite Forall_forall in IHe. apply IHe. exact He. }
     set (pl := combine (combine ns ls) (local_empties ns es)).
     assert (Hdl : dl (map (fun x => decl_occ en flv slv reg (snd x) (fst x)) pl) = map fst pl).
     { unfold dl. induction pl as [|[[n0 l0] f0] r IH]; [reflexivity|]. cbn. rewrite IH. reflexivity. }
